@@ -25,7 +25,7 @@ func (c01) Meta() fw.Meta {
 			"oracle: each returned value bit-equals the value in the physical slot floor_mod((I-base)/S,N) iff that slot holds interval I, else NaN; each direct write changes exactly the addressed slot. " +
 			"non-trivial = the history produced at least one stale-lap NaN read, ring-end-crossing read or page-straddling slot read; distinct by hash of (layout, clock, ops).",
 		Assumptions: []string{
-			"clock domain: maxRetention + 2*maxStep <= now and now + maxStep < 2^32 (no wrap of the format's unsigned 32-bit time)",
+			"clock domain: maxRetention + 2*maxStep <= now and now + 2*maxStep < 2^32 (no wrap of the format's unsigned 32-bit time)",
 			"raw slot state is read through the live handle (GetAllRawUnsortedPoints) and cross-checked against the harness' own parse of the file bytes at every sync/reopen",
 			"layouts: 1-4 archives, steps 1..3600*60, rings of 1..1500 slots (thorough: a few files > 4 MiB)",
 		},
